@@ -26,7 +26,9 @@ WIDTH_W = {"write_u64_le": 8, "write_u32_le": 4, "write_u16_le": 2, "write_u8": 
 
 
 def _const(prog, path):
-    c = prog.consts.get(path)
+    from .consts import const_id
+    mod, name = path.rsplit("::", 1)
+    c = prog.consts.get(const_id(prog, mod, name) or path)
     if not c or not isinstance(c.get("v"), dict):
         return None
     v = c["v"]
@@ -368,3 +370,5 @@ def check(ctx):
     import_rules(ctx, "c05", {"bucket-index"})
     import_rules(ctx, "c06", {"class-slot"})
     import_rules(ctx, "c09", {"vu64-reader-consumes-encoded-length"})
+    # the key types' Hash impls (derived over the raw bytes) are the on-disk bucket function
+    import_rules(ctx, "c10", {"byte-identity"})
